@@ -39,10 +39,16 @@ def interesting_cells(drv, tier, rng):
     for r in range(0, 3 if tier == 'quick' else 5):
         cells += all_ids(r)
     a5 = drv.a5
-    for _ in range(60 if tier == 'quick' else 1500):
+    for _ in range(80 if tier == 'quick' else 2000):
         r = rng.randint(3, 29)
-        k = rng.randrange(4)
-        if k == 0:
+        k = rng.randrange(5)
+        if k == 4:
+            # the library's own longitude seam (theta = +-180 deg, i.e. 87 deg E / its antipode 93 deg W after the fixed offset), at every
+            # latitude and in particular inside the polar caps, where the normalisation falls back to the first vertex's longitude
+            lat = rng.choice([rng.uniform(-85, 85), rng.choice([-1, 1]) * (90 - 10 ** rng.uniform(-6, 0)), rng.choice([-1, 1]) * (90 - 10 ** rng.uniform(-6, -1.9))])
+            p = (rng.choice([87.0, -93.0]) + rng.uniform(-1, 1) * 10 ** rng.uniform(-9, 0.5), lat)
+            r = rng.randint(3, 29) if abs(lat) < 89.9 else rng.randint(12, 29)
+        elif k == 0:
             p = (180.0 - rng.uniform(-1, 1) * 10 ** rng.uniform(-9, 0), rng.uniform(-85, 85))
         elif k == 1:
             p = (rng.uniform(-180, 180), rng.choice([-1, 1]) * (90 - 10 ** rng.uniform(-9, 1)))
@@ -154,11 +160,25 @@ def oracle(tier, rng, seeds):
     drv = common.py_driver()
     fails, n, seen = [], 0, set()
     cells = interesting_cells(drv, tier, rng)
-    for op in seeds:
+    combos = [(cl, sg) for cl in CLOSED for sg in SEGS]
+    for op in seeds[:300]:
         t = op.split()
         if t[0] == 'c2b':
-            cells.insert(0, int(t[1]))
-    combos = [(cl, sg) for cl in CLOSED for sg in SEGS]
+            c = int(t[1])
+            if c == 0 or ref_res(c) is None:
+                continue
+            cl = {'1': True, '0': False}.get(t[2], None)
+            sg = 'omit' if t[3] in ('-', 'x') else None if t[3] == 'none' else 'auto' if t[3] == 'auto' else int(t[3])
+            try:
+                base = drv.a5.cell_to_boundary(c, {'segments': 1, 'closed_ring': False})
+            except Exception:
+                continue
+            # the option combination on which model and implementation disagree, then every segment count for that cell
+            check_ring(drv, c, cl, sg, fails, base); n += 1; seen.add((c, cl, str(sg)))
+            for sg2 in (2, 3, 7):
+                check_ring(drv, c, False, sg2, fails, base); n += 1; seen.add((c, False, str(sg2)))
+            if len(fails) > 30:
+                break
     for idx, c in enumerate(cells):
         if c == 0 or ref_res(c) is None:
             continue
